@@ -161,7 +161,8 @@ def overlaps_at_least(range1, range2, delta=0):
     if ovlp1 < 0 or ovlp2 < 0:
         return False
     d = delta - 1
-    if range1[1] < range2[1]:
+    # ranges ending at the same position: range1 may still be the one that lies inside range2
+    if range1[1] < range2[1] or (range1[1] == range2[1] and range1[0] >= range2[0]):
         return ovlp1 >= d or range1[0] >= range2[0]
     else:
         return ovlp2 >= d or range1[0] <= range2[0]
@@ -169,7 +170,7 @@ def overlaps_at_least(range1, range2, delta=0):
 
 # dangerous function, works only when range1 and range2 are already known to overlap, do not use if unsure
 def overlaps_at_least_when_overlap(range1, range2, delta=0):
-    if range1[1] < range2[1]:
+    if range1[1] < range2[1] or (range1[1] == range2[1] and range1[0] >= range2[0]):
         return range1[0] >= range2[0] or range1[1] - range2[0] + 1 >= delta
     else:
         return range1[0] <= range2[0] or range2[1] - range1[0] + 1 >= delta
